@@ -202,3 +202,19 @@ impl SwarmDriver {
         }
     }
 }
+
+/// Verification hooks (compiled only with `--cfg maidsafe_safe_network_verif`): let the external
+/// /verif harness play the transport between several real `SwarmDriver`s in one process — hand a
+/// received replication list to the real handler, and take the commands a driver has been sent off
+/// its own queues instead of letting libp2p carry them. Nothing here is used by the crate itself.
+#[cfg(maidsafe_safe_network_verif)]
+impl SwarmDriver {
+    /// What `handle_req_resp_events` does with an incoming `Cmd::Replicate { holder, keys }`.
+    pub fn verif_handle_replicate_cmd(
+        &mut self,
+        holder: NetworkAddress,
+        keys: Vec<(NetworkAddress, RecordType)>,
+    ) {
+        self.add_keys_to_replication_fetcher(holder, keys)
+    }
+}
